@@ -190,16 +190,17 @@ type RunOpts struct {
 	ReturnErr      bool  // ReturnErrOnFailedRuleEvaluation
 	Ctx            context.Context
 	ExtraListeners int
-	Removed        map[string]bool                    // rule names removed (model side)
-	NoSnapshots    bool                               // skip Pre snapshots / post-state comparison
-	OnEvent        func(ev string)                    // observer of the unified event log
-	KB             *ast.KnowledgeBase                 // reuse this instance instead of creating one
-	CloneOrd       int                                // order in which NewKnowledgeBaseInstance clones the rules (see Built.InstanceOrd)
-	DefaultChoice  int                                // order choice used beyond Choices (clamped to the number of permutations)
-	CountReads     string                             // when set ("F.P->V"): leaf reads of that accessor are logged as events "read:<key>"
-	DataCtx        ast.IDataContext                   // use this data context (it must hold the world's own objects) instead of a new one
-	Shared         *SharedEngine                      // run on this shared engine value (its MaxCycle / flag apply) instead of a private one
-	OnProbe        func(kind string, id int64, n int) // called at every probe invocation of the world's facts (after the event is logged)
+	Removed        map[string]bool                     // rule names removed (model side)
+	NoSnapshots    bool                                // skip Pre snapshots / post-state comparison
+	OnEvent        func(ev string)                     // observer of the unified event log
+	KB             *ast.KnowledgeBase                  // reuse this instance instead of creating one
+	CloneOrd       int                                 // order in which NewKnowledgeBaseInstance clones the rules (see Built.InstanceOrd)
+	DefaultChoice  int                                 // order choice used beyond Choices (clamped to the number of permutations)
+	CountReads     string                              // when set ("F.P->V"): leaf reads of that accessor are logged as events "read:<key>"
+	DataCtx        ast.IDataContext                    // use this data context (it must hold the world's own objects) instead of a new one
+	Shared         *SharedEngine                       // run on this shared engine value (its MaxCycle / flag apply) instead of a private one
+	OnHook         func(dc ast.IDataContext, id int64) // what F.Hook(id) does during this run (it gets the run's data context)
+	OnProbe        func(kind string, id int64, n int)  // called at every probe invocation of the world's facts (after the event is logged)
 }
 
 type monitor struct {
@@ -476,6 +477,9 @@ func RunOn(prog *Program, kb *ast.KnowledgeBase, w *ref.World, opts RunOpts, tr 
 	}
 	for _, f := range w.Objs {
 		f := f
+		if opts.OnHook != nil {
+			f.H().OnHook = func(id int64) { opts.OnHook(dc, id) }
+		}
 		f.H().OnProbe = func(kind string, id int64, n int) {
 			m.event(fmt.Sprintf("%s:%d", kind, id))
 			if opts.OnProbe != nil {
